@@ -149,8 +149,11 @@ struct Acc {
     strategies: BTreeMap<&'static str, u64>,
     steps: u64,
     clock_ms: u64,
-    violations: Vec<(u64, u64, Violation)>, // (run idx, seed, violation)
+    violations: Vec<(u64, u64, Violation)>, // (run idx, seed, violation); at most CAP per signature
+    viol_counts: BTreeMap<String, u64>,
 }
+
+const CAP_PER_SIG: u64 = 64;
 
 impl Acc {
     fn new() -> Self {
@@ -166,6 +169,7 @@ impl Acc {
             steps: 0,
             clock_ms: 0,
             violations: vec![],
+            viol_counts: BTreeMap::new(),
         }
     }
     fn add(&mut self, idx: u64, seed: u64, r: RunOut) {
@@ -193,7 +197,11 @@ impl Acc {
         self.steps += r.steps;
         self.clock_ms = self.clock_ms.saturating_add(r.clock_ms);
         for v in r.violations {
-            self.violations.push((idx, seed, v));
+            let c = self.viol_counts.entry(v.sig.clone()).or_insert(0);
+            *c += 1;
+            if *c <= CAP_PER_SIG {
+                self.violations.push((idx, seed, v));
+            }
         }
     }
     fn merge(&mut self, o: Acc) {
@@ -213,7 +221,16 @@ impl Acc {
         }
         self.steps += o.steps;
         self.clock_ms = self.clock_ms.saturating_add(o.clock_ms);
-        self.violations.extend(o.violations);
+        for v in o.violations {
+            // earlier rounds always carry lower run indices, so later surplus can be dropped
+            let stored = self.violations.iter().filter(|x| x.2.sig == v.2.sig).count() as u64;
+            if stored < 32 * CAP_PER_SIG {
+                self.violations.push(v);
+            }
+        }
+        for (k, v) in o.viol_counts {
+            *self.viol_counts.entry(k).or_insert(0) += v;
+        }
     }
 }
 
@@ -300,6 +317,32 @@ pub fn run_check(chk: &dyn Check, tier: Tier, base_seed: u64) -> i32 {
         }
     }
 
+    // ---- process watchdog (wall clock; turns a hang in un-instrumented code into exit 2, never
+    // into a verdict)
+    let beat = std::sync::Arc::new(AtomicU64::new(0));
+    let searching = std::sync::Arc::new(AtomicBool::new(true));
+    {
+        let (beat, searching) = (beat.clone(), searching.clone());
+        let prop = prop.to_string();
+        std::thread::spawn(move || {
+            let mut last = u64::MAX;
+            let mut idle = 0u64;
+            while searching.load(Ordering::Relaxed) {
+                std::thread::sleep(std::time::Duration::from_secs(5));
+                let b = beat.load(Ordering::Relaxed);
+                if b == last {
+                    idle += 5;
+                } else {
+                    idle = 0;
+                    last = b;
+                }
+                if idle >= 600 && searching.load(Ordering::Relaxed) {
+                    eprintln!("harness error: {prop}: no run finished for {idle} s (hang in un-instrumented code?)");
+                    std::process::exit(2);
+                }
+            }
+        });
+    }
     // ---- seeded search
     let next = AtomicU64::new(0);
     let stop = AtomicBool::new(false);
@@ -325,6 +368,7 @@ pub fn run_check(chk: &dyn Check, tier: Tier, base_seed: u64) -> i32 {
                             let r = std::panic::catch_unwind(std::panic::AssertUnwindSafe(|| {
                                 chk.run_seed(seed)
                             }));
+                            beat.fetch_add(1, Ordering::Relaxed);
                             match r {
                                 Ok(r) => acc.add(idx, seed, r),
                                 Err(_) => {
@@ -355,6 +399,7 @@ pub fn run_check(chk: &dyn Check, tier: Tier, base_seed: u64) -> i32 {
             stop.store(true, Ordering::Relaxed);
         }
     }
+    searching.store(false, Ordering::Relaxed);
     if let Some(e) = harness_err.lock().unwrap().take() {
         eprintln!("harness error: {e}");
         return 2;
@@ -373,6 +418,10 @@ pub fn run_check(chk: &dyn Check, tier: Tier, base_seed: u64) -> i32 {
         once_desc = desc;
     }
 
+    if let Some(h) = acc.violations.iter().find(|v| v.2.sig.starts_with("HARNESS/")) {
+        eprintln!("harness error: run {} (seed {}): {}", h.0, h.1, h.2.detail);
+        return 2;
+    }
     // ---- classify
     acc.violations.sort_by(|a, b| a.0.cmp(&b.0).then(a.2.sig.cmp(&b.2.sig)));
     let open_keys: BTreeSet<&str> = open.iter().map(|k| k.key.as_str()).collect();
@@ -380,14 +429,20 @@ pub fn run_check(chk: &dyn Check, tier: Tier, base_seed: u64) -> i32 {
     let mut n_known = 0u64;
     let mut n_new = 0u64;
     for (idx, seed, v) in &acc.violations {
-        if open_keys.contains(v.sig.as_str()) {
-            n_known += 1;
-            *known_seen.entry(v.sig.clone()).or_insert(0) += 1;
-        } else {
-            n_new += 1;
+        if !open_keys.contains(v.sig.as_str()) {
+            // lowest run index per signature (workers keep the first CAP per signature each, and
+            // rounds are complete, so the lowest index is always among them)
             first_new
                 .entry(v.sig.clone())
                 .or_insert((*idx, *seed, v.clone()));
+        }
+    }
+    for (sig, c) in &acc.viol_counts {
+        if open_keys.contains(sig.as_str()) {
+            n_known += c;
+            *known_seen.entry(sig.clone()).or_insert(0) += c;
+        } else {
+            n_new += c;
         }
     }
     // open entries without witness file: print the line when the search met them
@@ -571,5 +626,154 @@ pub fn replay(chk: &dyn Check, file: &Path, body: &Value, quiet: bool) -> i32 {
                 0
             }
         }
+    }
+}
+
+
+/// Fingerprint of what a run produced (everything the determinism proof compares).
+fn run_fingerprint(r: &RunOut) -> u64 {
+    let mut d = crate::prng::Digest::default();
+    d.u64(r.digest);
+    d.u64(r.steps);
+    d.u64(r.inner_evals);
+    d.u64(r.nontrivial as u64);
+    for v in &r.violations {
+        d.str(&v.sig);
+        d.str(&v.detail);
+    }
+    for x in &r.inner_digests {
+        d.u64(*x);
+    }
+    for x in &r.state_digests {
+        d.u64(*x);
+    }
+    for (k, v) in &r.probes {
+        d.str(k);
+        d.u64(*v);
+    }
+    for (k, v) in &r.faults {
+        d.str(k);
+        d.u64(*v);
+    }
+    d.finish()
+}
+
+/// Per-run fingerprints of seeds 0..n of a check, computed on `w` worker threads.
+pub fn fingerprints(chk: &dyn Check, base_seed: u64, n: u64, w: usize) -> Vec<u64> {
+    let tag = crate::prng::tag_of(chk.prop());
+    let out: Mutex<Vec<(u64, u64)>> = Mutex::new(vec![]);
+    let next = AtomicU64::new(0);
+    std::thread::scope(|s| {
+        for _ in 0..w.max(1) {
+            s.spawn(|| {
+                let mut local = vec![];
+                loop {
+                    let i = next.fetch_add(1, Ordering::Relaxed);
+                    if i >= n {
+                        break;
+                    }
+                    let r = chk.run_seed(mix(base_seed, tag, i));
+                    local.push((i, run_fingerprint(&r)));
+                }
+                out.lock().unwrap().extend(local);
+            });
+        }
+    });
+    let mut v = out.into_inner().unwrap();
+    v.sort();
+    v.into_iter().map(|x| x.1).collect()
+}
+
+fn strip_clock(v: &mut Value) {
+    match v {
+        Value::Object(m) => {
+            if m.contains_key("clock") {
+                m.insert(
+                    "clock".into(),
+                    json!({"base": 1_700_000_000_000u64, "tick": 1, "jumps": []}),
+                );
+            }
+            for (_, x) in m.iter_mut() {
+                strip_clock(x);
+            }
+        }
+        Value::Array(a) => {
+            for x in a.iter_mut() {
+                strip_clock(x);
+            }
+        }
+        _ => {}
+    }
+}
+
+/// Determinism self-test: (a) twice in one process, (b) at worker counts 1 / 4 / all,
+/// (c) in a separate process, (d) verdicts invariant under clock faults. Exit 0 / 2.
+pub fn selftest_determinism(checks: &[Box<dyn Check>], base_seed: u64, n: u64) -> i32 {
+    let mut bad = 0;
+    for chk in checks {
+        let n = if chk.level() == "fault_enumeration" { (n / 40).max(6) } else { n };
+        let t0 = Instant::now();
+        let a = fingerprints(chk.as_ref(), base_seed, n, 1);
+        let b = fingerprints(chk.as_ref(), base_seed, n, 4);
+        let c = fingerprints(chk.as_ref(), base_seed, n, workers());
+        let mut ok = a == b && a == c;
+        // separate process
+        let exe = std::env::current_exe().unwrap();
+        let child = std::process::Command::new(exe)
+            .args(["fingerprints", chk.prop(), &base_seed.to_string(), &n.to_string()])
+            .output();
+        let mut child_ok = false;
+        if let Ok(o) = child {
+            let txt = String::from_utf8_lossy(&o.stdout);
+            let got: Vec<u64> = txt.split_whitespace().filter_map(|x| x.parse().ok()).collect();
+            child_ok = got == a;
+        }
+        ok &= child_ok;
+        // clock metamorphism: same verdicts with the clock faults removed
+        let tag = crate::prng::tag_of(chk.prop());
+        let mut clock_cases = 0;
+        let mut clock_bad = 0;
+        for i in 0..n.min(300) {
+            let seed = mix(base_seed, tag, i);
+            let case = chk.case_of_seed(seed);
+            let mut c2 = case.clone();
+            strip_clock(&mut c2);
+            if c2 == case {
+                continue;
+            }
+            clock_cases += 1;
+            let (Ok(r1), Ok(r2)) = (chk.run_case(&case), chk.run_case(&c2)) else {
+                clock_bad += 1;
+                continue;
+            };
+            let s1: Vec<&String> = r1.violations.iter().map(|v| &v.sig).collect();
+            let s2: Vec<&String> = r2.violations.iter().map(|v| &v.sig).collect();
+            if s1 != s2 || r1.nontrivial != r2.nontrivial {
+                clock_bad += 1;
+            }
+        }
+        if clock_bad > 0 {
+            ok = false;
+        }
+        println!(
+            "determinism {}: {} runs x (1, 4, {} workers, fresh process) {} | clock-fault metamorphism: {} cases, {} diverged | {:.1}s",
+            chk.prop(),
+            n,
+            workers(),
+            if a == b && a == c && child_ok { "identical" } else { "DIFFER" },
+            clock_cases,
+            clock_bad,
+            t0.elapsed().as_secs_f64()
+        );
+        if !ok {
+            bad += 1;
+        }
+    }
+    if bad > 0 {
+        eprintln!("harness error: determinism self-test failed for {bad} check(s)");
+        2
+    } else {
+        println!("determinism self-test: all checks deterministic");
+        0
     }
 }
